@@ -70,6 +70,7 @@ def run(ctx):
                         try: v, e, k, x0 = call_pi(An, seed, mi, tol, verbose=True)
                         except Exception as ex: viol(f'C19:raises:{cls}', f'power_iteration raised {ex!r}', inp); continue
                         nv = fro(v)
+                        if not cm.all_finite(v, e): viol(f'C19:nonfinite:{cls}', 'power_iteration returned NaN / inf', inp); continue
                         if v.shape != (n, 1): viol(f'C19:shape:{cls}', 'returned vector is not n x 1', inp, v.shape)
                         if not abs(nv - 1) <= 1e-12: viol(f'C19:unit:{cls}', f'returned vector has norm {nv!r}', inp, nv, 1)
                         if not (0 <= e <= s2 * (1 + 1e-12) + 1e-300): viol(f'C19:bounded:{cls}', f'estimate {e!r} exceeds the spectral norm {s2!r}', inp, e, s2)
